@@ -13,6 +13,7 @@ import JanetModel.Marsh.GraphRoundtrip
 import JanetModel.Marsh.GraphInbounds
 import JanetModel.Asm.OperandLemmas
 import JanetModel.Marsh.EnvBitsetLemmas
+import JanetModel.Marsh.CodeRoundtrip
 
 namespace JanetModel.Props.C09
 open JanetModel.Marsh JanetModel.Gen.Marsh
@@ -191,5 +192,96 @@ example : marshalOne topFuel [.table 0 (some (.ref 0)) [(.ref 0, .int 7)]] 0 (.r
 /-- heaps that are not in reference-number order are rejected by the model (so the hypothesis of the theorems is not vacuous
 for the wrong reason) -/
 example : marshalOne topFuel [.tuple 0 [.ref 1], .array false []] 0 (.ref 0) = none := by decide
+
+/-! ### value graphs with code objects: functions, funcdefs, closure environments  (Marsh/Code.lean)
+
+A graph is a value `x` plus three tables `T` - heap objects (data objects and functions), funcdefs, environments - each listed
+in the order marsh.c numbers its entries (`st->seen` / `st->seen_defs` / `st->seen_envs`).  Two closures share a funcdef, or an
+environment (their mutable captured variables), iff they carry the same index; so "same shape, same sharing and cycles,
+same code" is equality of `(x, T)`.  `HeapCWF` says what the C types, `janet_def_addflags` and `janet_verify` guarantee (int32
+ranges, optional parts present iff their flag bit is set, at most 255 environments per function, no empty detached
+environment, every funcdef passes the verifier `vf`). -/
+
+/-- **Round trip of `marshal_one` / `unmarshal_one` on graphs with functions**, with sharing of objects, funcdefs and
+environments, from any counter state, for any continuation of the buffer, and for **every unmarshal depth budget `fu` that is at
+least the marshal budget `fm`**: if `marshal_one` emits `bs` and numbers table entries `c .. c'`, then `unmarshal_one` reads
+exactly `bs`, returns the same value and appends exactly those entries - function objects with the same funcdef and
+environment indices, funcdefs field by field (flags, arities, constants, symbol map, bytecode words, environment indices,
+sub-funcdefs, source map, closure bitset), environments value by value.  With `fu = fm` this is "whatever can be marshalled
+can be unmarshalled" at the recursion limit; it needs the depth discipline `CodeObligations.unmarshal_never_deeper` of the
+current source (false before fix a382df0). -/
+theorem roundtrip_code (T : Heap) (vf : Def → Bool) (hT : HeapCWF vf T) (fm fu : Nat) (hfu : fm ≤ fu) (c : Ct) (x : Val)
+    (bs : List Nat) (c' : Ct) (tl : List Nat) (hc : c ≤ T.size) (hx : ValWF x) (hm : marshalC fm T x c = some (bs, c')) :
+    unmarshalC fu vf c (bs ++ tl) = some (x, tl, T.slice c c') :=
+  ((all_roundtrip T vf hT fm).1 fu hfu x hx c bs c' tl hc hm).2.2
+
+/-- the same for `marshal_one_def` / `unmarshal_one_def` alone: a funcdef already in `seen_defs` comes back as the same index
+(LB_FUNCDEF_REF), a new one is rebuilt field by field together with everything below it -/
+theorem roundtrip_funcdef (T : Heap) (vf : Def → Bool) (hT : HeapCWF vf T) (fm fu : Nat) (hfu : fm ≤ fu) (c : Ct) (di : Nat)
+    (bs : List Nat) (c' : Ct) (tl : List Nat) (hc : c ≤ T.size) (hm : marshalDef fm T di c = some (bs, c')) :
+    unmarshalDef fu vf c (bs ++ tl) = some (di, tl, T.slice c c') :=
+  ((all_roundtrip T vf hT fm).2.1 fu hfu di c bs c' tl hc hm).2.2
+
+/-- the same for `marshal_one_env` / `unmarshal_one_env`: an environment already in `seen_envs` comes back as the same index
+(LB_FUNCENV_REF) - that is what keeps two closures over one variable connected after the round trip -/
+theorem roundtrip_funcenv (T : Heap) (vf : Def → Bool) (hT : HeapCWF vf T) (fm fu : Nat) (hfu : fm ≤ fu) (c : Ct) (ei : Nat)
+    (bs : List Nat) (c' : Ct) (tl : List Nat) (hc : c ≤ T.size) (hm : marshalEnv fm T ei c = some (bs, c')) :
+    unmarshalEnvWith (fun c d => unmarshalC fu vf c d) c (bs ++ tl) = some (ei, tl, T.slice c c') :=
+  ((all_roundtrip T vf hT fm).2.2 fu hfu ei c bs c' tl hc hm).2.2
+
+/-- all three lookup tables of the unmarshaller grow by exactly the numbers the marshaller handed out -/
+theorem code_ids_agree (T : Heap) (vf : Def → Bool) (hT : HeapCWF vf T) (fuel : Nat) (c : Ct) (x : Val)
+    (bs : List Nat) (c' : Ct) (tl : List Nat) (hc : c ≤ T.size) (hx : ValWF x) (hm : marshalC fuel T x c = some (bs, c')) :
+    ∃ o, unmarshalC fuel vf c (bs ++ tl) = some (x, tl, o) ∧ c.add o = c' ∧ c ≤ c' ∧ c' ≤ T.size := by
+  obtain ⟨h1, h2, h3⟩ := (all_roundtrip T vf hT fuel).1 fuel (Nat.le_refl _) x hx c bs c' tl hc hm
+  exact ⟨T.slice c c', h3, Ct.add_slice T c c' h1 h2, h1, h2⟩
+
+/-- entry points: `janet_unmarshal (janet_marshal x)` gives back the value and all three tables and reads exactly the bytes
+written (`… = some (bs, T.size)`: every entry of the description was numbered, the description contains no garbage) -/
+theorem roundtrip_code_top (T : Heap) (vf : Def → Bool) (hT : HeapCWF vf T) (x : Val) (hx : ValWF x) (bs : List Nat)
+    (hm : marshalC topFuel T x ⟨0, 0, 0⟩ = some (bs, T.size)) :
+    marshalCode T x = some bs ∧ unmarshalCode vf bs = some (x, ⟨T.objs, T.defs, T.envs⟩, bs.length) := by
+  refine ⟨by simp [marshalCode, hm], ?_⟩
+  have h := roundtrip_code T vf hT topFuel topFuel (Nat.le_refl _) ⟨0, 0, 0⟩ x bs T.size [] ⟨Nat.zero_le _, Nat.zero_le _, Nat.zero_le _⟩ hx hm
+  simp only [List.append_nil] at h
+  simp [unmarshalCode, h, Heap.slice, Heap.size, slc]
+
+/-- non-vacuity: two closures (`inc`, `get`) over one captured variable, made by one outer funcdef: both functions carry
+environment 0, the second funcdef is a sub-funcdef listed by index; the tuple of both is the root.  The model marshals it,
+the second closure's environment goes out as LB_FUNCENV_REF 0 (`219, 0`), and unmarshalling gives the same three tables. -/
+def exCode : Heap :=
+  { objs := [.func 0 [0], .func 1 [0], .data (.tuple 0 [.ref 0, .ref 1])],
+    defs := [⟨4194304, 1, 0, 0, 0, none, none, [], [], [0x0000012D, 0x00000003], [-1], [], [], []⟩,
+             ⟨4194304, 1, 0, 0, 0, none, none, [.int 300], [], [0x00000003], [-1], [], [], []⟩],
+    envs := [.detached [.int 5, .nil]] }
+
+example : marshalC topFuel exCode (.ref 2) ⟨0, 0, 0⟩ =
+    some ([210, 2, 0, 215, 1, 205, 0, 64, 0, 0, 1, 0, 0, 0, 0, 2, 1, 45, 1, 0, 0, 3, 0, 0, 0, 191, 255, 0, 2, 5, 201,
+           215, 1, 205, 0, 64, 0, 0, 1, 0, 0, 0, 1, 1, 1, 129, 44, 3, 0, 0, 0, 191, 255, 219, 0], ⟨3, 2, 1⟩) := by decide
+
+example : (unmarshalCode (fun _ => true) [210, 2, 0, 215, 1, 205, 0, 64, 0, 0, 1, 0, 0, 0, 0, 2, 1, 45, 1, 0, 0, 3, 0, 0, 0, 191, 255, 0, 2, 5, 201,
+           215, 1, 205, 0, 64, 0, 0, 1, 0, 0, 0, 1, 1, 1, 129, 44, 3, 0, 0, 0, 191, 255, 219, 0]).map (·.1) = some (.ref 2) := by decide
+
+/-- the hypotheses of the theorems hold for it -/
+example : HeapCWF (fun _ => true) exCode := by
+  refine ⟨by decide, by decide, by decide, ?_, ?_, ?_⟩
+  · intro o ho
+    simp only [exCode, List.mem_cons, List.mem_nil_iff, or_false] at ho
+    rcases ho with rfl | rfl | rfl <;> simp [CObjWF, ObjWF, ValWF, Marsh.Int32, JanetModel.Gen.MarshCode.maxFuncEnvs]
+  · intro d hd
+    simp only [exCode, List.mem_cons, List.mem_nil_iff, or_false] at hd
+    rcases hd with rfl | rfl <;> constructor <;>
+      simp [Marsh.Int32, OptWF, hasFlag, ValWF, SymWF, SmWF, JanetModel.Gen.MarshCode.maxSlotcount, JanetModel.Gen.MarshCode.fdHasName,
+        JanetModel.Gen.MarshCode.fdHasSource, JanetModel.Gen.MarshCode.fdHasSymbolMap, JanetModel.Gen.MarshCode.fdHasEnvs,
+        JanetModel.Gen.MarshCode.fdHasDefs, JanetModel.Gen.MarshCode.fdHasSourceMap, JanetModel.Gen.MarshCode.fdHasCloBitset]
+  · intro e he
+    simp only [exCode, List.mem_cons, List.mem_nil_iff, or_false] at he
+    subst he
+    simp [EnvWF, ValWF, Marsh.Int32]
+
+/-- a description whose funcdefs are not in `seen_defs` order is rejected (the hypothesis of the theorems is not vacuous for
+the wrong reason) -/
+example : marshalC topFuel { exCode with objs := [.func 1 [0]] } (.ref 0) ⟨0, 0, 0⟩ = none := by decide
+
 
 end JanetModel.Props.C09
